@@ -55,7 +55,7 @@ func init() {
 		Run:          Run,
 		MaxSteps:     200000,
 		QuickRuns:    14000,
-		ThoroughSecs: 600,
+		ThoroughSecs: 400,
 		Rule: "one run = one window size, key length, single/multi-user server, padding policies, one generated arrival history of 5-200 packet ids " +
 			"(boundary-biased: 0, 64-bit block edges, ring multiples, window edge, 2^64-1) that drives SlidingWindowFilter directly (Add and IsOk+MustAdd) and then " +
 			"either 1-3 client sessions against the real UDP server or 1-5 server sessions against the real client unpacker, over a harness queue or simnet UDP " +
